@@ -158,6 +158,12 @@ static void dict_cases(uint64_t *unit)
 						fill_xorshift(IN + len, 100, 556);
 						len += 100;
 					}
+					/* hw: announced window (hist_bits) 0 = default, 9, 12; assigned before the dictionary call or (late) between the
+					 * dictionary call and the first isal_deflate - either order is a legal way to fill in the stream parameters */
+					for (int hw = 0; hw < 5; hw++) {
+					int hbits = hw == 0 ? 0 : hw <= 2 ? 9 : 12, hlate = hw == 2 || hw == 4;
+					if (hw && dv == 3)
+						continue;
 					cpu_set_level(cpus[ci]);
 					const uint8_t *eff = dl > 32768 ? DICT + dl - 32768 : DICT;
 					size_t efflen = dl > 32768 ? 32768 : dl;
@@ -174,11 +180,13 @@ static void dict_cases(uint64_t *unit)
 						uint8_t *in = g_alloc(len, G_END);
 						memcpy(in, IN, len);
 						int r = -1000, rd = -1000;
-						snprintf(key, sizeof key, "dict len=%d data=%s level=%d cpu=%s via=%s", dl, dv == 0 ? "tail4" : dv == 1 ? "tail300" : dv == 2 ? "tail32768" : "only-before-window", level,
-							 cpu_level_name[cpus[ci]], var == 0 ? "set_dict" : var == 1 ? "set_dict(last 32K)" : "process_dict+reset_dict");
+						snprintf(key, sizeof key, "dict len=%d data=%s level=%d hist_bits=%d%s cpu=%s via=%s", dl, dv == 0 ? "tail4" : dv == 1 ? "tail300" : dv == 2 ? "tail32768" : "only-before-window", level,
+							 hbits, hlate ? "(set after the dictionary call)" : "", cpu_level_name[cpus[ci]], var == 0 ? "set_dict" : var == 1 ? "set_dict(last 32K)" : "process_dict+reset_dict");
 						if (V_TRY()) {
 							isal_deflate_init(s);
 							s->level = level; s->level_buf = lb; s->level_buf_size = level ? lvl_default[level] : 0;
+							if (!hlate)
+								s->hist_bits = hbits;
 							if (var < 2)
 								rd = isal_deflate_set_dict(s, din, var == 1 ? efflen : dl);
 							else {
@@ -187,6 +195,8 @@ static void dict_cases(uint64_t *unit)
 								if (rd == COMP_OK)
 									rd = isal_deflate_reset_dict(s, pd);
 							}
+							if (hlate)
+								s->hist_bits = hbits;
 							if (rd == COMP_OK) {
 								s->next_in = in; s->avail_in = len; s->end_of_stream = 1;
 								s->next_out = outs[var]; s->avail_out = 2 * len + 4096;
@@ -215,8 +225,8 @@ static void dict_cases(uint64_t *unit)
 					if (!ok)
 						continue;
 					/* reference: decodes with the effective dictionary as history; no distance beyond dictionary + produced; max 32768 */
-					if (!verify_deflate_output(OUT, ol[0], IGZIP_DEFLATE, IN, len, 0, 0, eff, efflen, why, sizeof why)) {
-						snprintf(key, sizeof key, "dict len=%d data-variant=%d level=%d cpu=%s", dl, dv, level, cpu_level_name[cpus[ci]]);
+					if (!verify_deflate_output(OUT, ol[0], IGZIP_DEFLATE, IN, len, 0, hbits ? 1u << hbits : 0, eff, efflen, why, sizeof why)) {
+						snprintf(key, sizeof key, "dict len=%d data-variant=%d level=%d hist_bits=%d%s cpu=%s", dl, dv, level, hbits, hlate ? "(late)" : "", cpu_level_name[cpus[ci]]);
 						v_violation(key, "stream compressed with the dictionary: %s", why);
 						nfail++;
 						continue;
@@ -227,12 +237,12 @@ static void dict_cases(uint64_t *unit)
 					if (reach)
 						v_count("streams_reaching_into_dictionary", 1);
 					if (ol[0] != ol[1] || memcmp(OUT, OUT2, ol[0])) {
-						snprintf(key, sizeof key, "dict-tail-only len=%d data-variant=%d level=%d cpu=%s", dl, dv, level, cpu_level_name[cpus[ci]]);
+						snprintf(key, sizeof key, "dict-tail-only len=%d data-variant=%d level=%d hist_bits=%d%s cpu=%s", dl, dv, level, hbits, hlate ? "(late)" : "", cpu_level_name[cpus[ci]]);
 						v_violation(key, "stream with the whole dictionary differs from the stream with only its last 32 KiB (%zu vs %zu bytes)", ol[0], ol[1]);
 						nfail++;
 					}
 					if (ol[0] != ol[2] || memcmp(OUT, BACK, ol[0])) {
-						snprintf(key, sizeof key, "dict-processed len=%d data-variant=%d level=%d cpu=%s", dl, dv, level, cpu_level_name[cpus[ci]]);
+						snprintf(key, sizeof key, "dict-processed len=%d data-variant=%d level=%d hist_bits=%d%s cpu=%s", dl, dv, level, hbits, hlate ? "(late)" : "", cpu_level_name[cpus[ci]]);
 						v_violation(key, "process_dict+reset_dict gives a different stream than set_dict (%zu vs %zu bytes)", ol[2], ol[0]);
 						nfail++;
 					}
@@ -248,7 +258,7 @@ static void dict_cases(uint64_t *unit)
 							r = isal_inflate(st);
 							V_END();
 						}
-						snprintf(key, sizeof key, "dict-inflate len=%d data-variant=%d level=%d cpu=%s", dl, dv, level, cpu_level_name[cpus[ci]]);
+						snprintf(key, sizeof key, "dict-inflate len=%d data-variant=%d level=%d hist_bits=%d%s cpu=%s", dl, dv, level, hbits, hlate ? "(late)" : "", cpu_level_name[cpus[ci]]);
 						if (rd != COMP_OK || r != ISAL_DECOMP_OK || st->block_state != ISAL_BLOCK_FINISH || st->total_out != len || memcmp(bo, IN, len)) {
 							v_violation(key, "isal_inflate_set_dict=%d isal_inflate=%d state=%d total_out=%u (expected %zu bytes)", rd, r, st->block_state, st->total_out, len);
 							nfail++;
@@ -267,7 +277,8 @@ static void dict_cases(uint64_t *unit)
 						}
 						inflateEnd(&z);
 					}
-					v_nontrivial(v_mix(di * 16 + dv, level * 8 + ci));
+					v_nontrivial(v_mix(di * 16 + dv, level * 8 + ci + 64 * hw));
+					} /* hw */
 				}
 }
 
